@@ -53,6 +53,11 @@ def tasks(tier):
                    abort=True, breaker={"threshold": thr, "window": 8, "recovery": 2,
                                         "trip_on": ["T", "U", "P"]})
         out.append({"family": "records-noretry", "cfg": cfg, "entry": e, "bound": 1, "ncalls": 3})
+    for e, thr in itertools.product(WITH_RETRY + NO_RETRY, [1, 3]):
+        cfg = dict(M=2, alphabet=["ok", "x:R+ra", "timeout", "x:T"], max_unknown=None, ra_ticks=1,
+                   breaker={"threshold": thr, "window": 8, "recovery": 2, "trip_on": ["T", "R"]})
+        out.append({"family": "records-classification", "cfg": cfg, "entry": e, "bound": 0,
+                    "ncalls": 2})
     for e, thr in itertools.product(WITH_RETRY[:4] + NO_RETRY, [1, 3]):
         cfg = dict(M=2, alphabet=["ok", "x:T", "coe", "nested", "kbd", "genexit"], max_unknown=None,
                    breaker={"threshold": thr, "window": 8, "recovery": 2, "trip_on": ["T", "U", "P"]})
